@@ -19,26 +19,35 @@ func c14GenesisRefs(o *runner.Outcome) {
 	ctx := scen.PreparedSeed("prepared").Build(c)
 	cases := []struct {
 		name, table, field, value string
-		row                       int // which row of the table is redirected
+		row                       int                    // which row of the table is redirected
+		add                       map[string]interface{} // if set: this row is APPENDED instead (a row no message writes)
 	}{
-		{"batch->project", "regen.ecocredit.v1.Batch", "project_key", "99", 0},
+		{"batch->project", "regen.ecocredit.v1.Batch", "project_key", "99", 0, nil},
 		// b2: all its amounts are whole numbers (no other validation rule can reject the document instead)
-		{"batch->project(whole-number-amounts)", "regen.ecocredit.v1.Batch", "project_key", "99", 1},
-		{"project->class", "regen.ecocredit.v1.Project", "class_key", "99", 0},
-		{"project->class(second)", "regen.ecocredit.v1.Project", "class_key", "99", 1},
-		{"class->credit-type", "regen.ecocredit.v1.Class", "credit_type_abbrev", "ZZZ", 0},
-		{"balance->batch", "regen.ecocredit.v1.BatchBalance", "batch_key", "99", 0},
-		{"supply->batch", "regen.ecocredit.v1.BatchSupply", "batch_key", "99", 0},
-		{"basket-balance->batch", "regen.ecocredit.basket.v1.BasketBalance", "batch_denom", "C01-001-20200101-20210101-099", 0},
+		{"batch->project(whole-number-amounts)", "regen.ecocredit.v1.Batch", "project_key", "99", 1, nil},
+		{"project->class", "regen.ecocredit.v1.Project", "class_key", "99", 0, nil},
+		{"project->class(second)", "regen.ecocredit.v1.Project", "class_key", "99", 1, nil},
+		{"class->credit-type", "regen.ecocredit.v1.Class", "credit_type_abbrev", "ZZZ", 0, nil},
+		{"balance->batch", "regen.ecocredit.v1.BatchBalance", "batch_key", "99", 0, nil},
+		{"supply->batch", "regen.ecocredit.v1.BatchSupply", "batch_key", "99", 0, nil},
+		{"basket-balance->batch", "regen.ecocredit.basket.v1.BasketBalance", "batch_denom", "C01-001-20200101-20210101-099", 0, nil},
+		// rows no message ever writes (Take deletes a drained row; balances of a batch exist only with the batch): an extra
+		// all-zero row naming a batch that does not exist changes no sum, so only the reference check can refuse it
+		{"basket-balance->batch(zero-balance-row)", "regen.ecocredit.basket.v1.BasketBalance", "", "", 0,
+			map[string]interface{}{"basket_id": "1", "batch_denom": "C01-001-20200101-20210101-099", "balance": "0", "batch_start_date": "2020-01-01T00:00:00Z"}},
+		{"balance->batch(zero-amounts-row)", "regen.ecocredit.v1.BatchBalance", "", "", 0,
+			map[string]interface{}{"batch_key": "99", "address": "AQEBAQEBAQEBAQEBAQEBAQEBAQE=", "tradable_amount": "0", "retired_amount": "0", "escrowed_amount": "0"}},
+		{"supply->batch(zero-amounts-row)", "regen.ecocredit.v1.BatchSupply", "", "", 0,
+			map[string]interface{}{"batch_key": "99", "tradable_amount": "0", "retired_amount": "0", "cancelled_amount": "0"}},
 		// the following are accepted by the unchanged validation: recorded in known_findings.txt (DESIGN §0.3, D17)
-		{"contract->batch", "regen.ecocredit.v1.BatchContract", "batch_key", "99", 0},
-		{"contract->class", "regen.ecocredit.v1.BatchContract", "class_key", "99", 0},
-		{"issuer->class", "regen.ecocredit.v1.ClassIssuer", "class_key", "99", 0},
-		{"sell-order->batch", "regen.ecocredit.marketplace.v1.SellOrder", "batch_key", "99", 0},
-		{"sell-order->market", "regen.ecocredit.marketplace.v1.SellOrder", "market_id", "99", 0},
-		{"basket-balance->basket", "regen.ecocredit.basket.v1.BasketBalance", "basket_id", "99", 0},
-		{"basket-class->class", "regen.ecocredit.basket.v1.BasketClass", "class_id", "C99", 0},
-		{"basket-class->basket", "regen.ecocredit.basket.v1.BasketClass", "basket_id", "99", 0},
+		{"contract->batch", "regen.ecocredit.v1.BatchContract", "batch_key", "99", 0, nil},
+		{"contract->class", "regen.ecocredit.v1.BatchContract", "class_key", "99", 0, nil},
+		{"issuer->class", "regen.ecocredit.v1.ClassIssuer", "class_key", "99", 0, nil},
+		{"sell-order->batch", "regen.ecocredit.marketplace.v1.SellOrder", "batch_key", "99", 0, nil},
+		{"sell-order->market", "regen.ecocredit.marketplace.v1.SellOrder", "market_id", "99", 0, nil},
+		{"basket-balance->basket", "regen.ecocredit.basket.v1.BasketBalance", "basket_id", "99", 0, nil},
+		{"basket-class->class", "regen.ecocredit.basket.v1.BasketClass", "class_id", "C99", 0, nil},
+		{"basket-class->basket", "regen.ecocredit.basket.v1.BasketClass", "basket_id", "99", 0, nil},
 	}
 	checked := 0
 	for _, cs := range cases {
@@ -47,10 +56,13 @@ func c14GenesisRefs(o *runner.Outcome) {
 		if err := json.Unmarshal(doc[cs.table], &raw); err != nil {
 			panic(err)
 		}
+		if cs.add != nil {
+			raw = append(raw, cs.add)
+		}
 		n := 0
 		for _, x := range raw {
 			if m, ok := x.(map[string]interface{}); ok {
-				if n == cs.row {
+				if n == cs.row && cs.add == nil {
 					m[cs.field] = cs.value
 				}
 				n++
@@ -59,9 +71,13 @@ func c14GenesisRefs(o *runner.Outcome) {
 		doc.Set(cs.table, raw)
 		checked++
 		if err := c.Eco.ValidateGenesis(c.Cdc, nil, doc.JSON()); err == nil {
-			rp, _ := json.Marshal(map[string]string{"table": cs.table, "field": cs.field, "value": cs.value})
+			rp, _ := json.Marshal(map[string]interface{}{"table": cs.table, "field": cs.field, "value": cs.value, "appended_row": cs.add})
+			detail := fmt.Sprintf("the exported prepared state with %s.%s of row %d set to %s passes ValidateGenesis", cs.table, cs.field, cs.row, cs.value)
+			if cs.add != nil {
+				detail = fmt.Sprintf("the exported prepared state with the row %v appended to %s passes ValidateGenesis", cs.add, cs.table)
+			}
 			o.Findings = append(o.Findings, runner.Finding{Kind: "C14/genesis-validation-accepts-dangling-reference/" + cs.name,
-				Detail: fmt.Sprintf("the exported prepared state with %s.%s of row %d set to %s passes ValidateGenesis", cs.table, cs.field, cs.row, cs.value),
+				Detail: detail,
 				Engine: "A", Where: "genesis", Replay: rp})
 		}
 	}
